@@ -19,7 +19,9 @@ All changes were written by fresh sub-agents that saw only the property text (ne
 current /repo HEAD with `tools/seedconfirm.sh` (demo passes unpatched; the repo's test suite passes with the patch; demo fails
 with the patch).  Seeds whose patch no longer applied after repository repairs were rebased by hand (noted in meta.json).
 One seed (C16-B: restore_svalue() returning before it reset its parser state) could no longer manifest after the repair
-f0bd2e1 made every restore start from a clean state, and was dropped.
+f0bd2e1 made every restore start from a clean state, and was dropped; likewise C17-A (load_binary() skipping the
+inherited program's .b time check when the parent is already loaded) stopped manifesting after repair 46b1ffa gave every
+program a `newest_source` stamp that makes that check redundant.
 
 | seed | property | mechanism | needs | result |
 |---|---|---|---|---|
